@@ -49,6 +49,10 @@ static void refine(const hx_case *base, const cut *cuts, size_t ncuts, hx_case *
 
 static hx_stats tot;
 static uint64_t n_runs, n_mismatch, n_cases;
+/* minimisation is a courtesy to triage, not part of the verdict: it gets a budget of extra runs per process, and a process that has
+ * already seen MAX_MISMATCH differing cases stops refining (the verdict is settled; the S line says how far it got) */
+static int64_t min_budget = 6000;
+#define MAX_MISMATCH 40
 
 extern const hx_case *hx_current_case;
 extern const char *hx_crash_dir;
@@ -88,10 +92,12 @@ static void report(const hx_case *base, const char *base_dump, cut *cuts, size_t
     memcpy(cs, cuts, n * sizeof(cut));
     if (n > 1) {
         /* first try each single cut alone (most defects need one cut) */
-        for (size_t i = 0; i < n && n > 1; i++) {
+        for (size_t i = 0; i < n && n > 1 && min_budget > 0; i++) {
+            min_budget--;
             if (differs(base, base_dump, &cs[i], 1, NULL)) { cs[0] = cs[i]; n = 1; break; }
         }
-        for (size_t i = 0; n > 1 && i < n; ) {
+        for (size_t i = 0; n > 1 && i < n && min_budget > 0; ) {
+            min_budget--;
             cut saved = cs[i];
             memmove(&cs[i], &cs[i + 1], (n - i - 1) * sizeof(cut));
             if (differs(base, base_dump, cs, n - 1, NULL)) { n--; }
@@ -152,6 +158,7 @@ int hx_seg_main(int argc, char **argv) {
     for (size_t ci = 0; ci < b.ncases; ci++) {
         hx_case *base = &b.cases[ci];
         if (ci < start_case) continue;
+        if (n_mismatch >= MAX_MISMATCH) break;
         base->cfg[CF_DUMP] = HX_DUMP_TX | HX_DUMP_EVENTS | HX_DUMP_SEG;
         hx_result br;
         char *bd = strdup(run_dump(base, &br));
@@ -225,7 +232,7 @@ int hx_seg_main(int argc, char **argv) {
     }
     hx_buf sb = { 0 };
     hx_stats_json(&sb, &tot);
-    printf("S {\"cases\":%llu,\"runs\":%llu,\"mismatches\":%llu,\"single_cuts\":%llu,\"stats\":%s}\n", (unsigned long long) n_cases,
+    printf("S {\"stopped_after_max_mismatches\":%d,\"cases\":%llu,\"runs\":%llu,\"mismatches\":%llu,\"single_cuts\":%llu,\"stats\":%s}\n", n_mismatch >= MAX_MISMATCH, (unsigned long long) n_cases,
            (unsigned long long) n_runs, (unsigned long long) n_mismatch, (unsigned long long) distinct_cuts, sb.p);
     hb_free(&sb);
     hx_batch_free(&b);
